@@ -228,8 +228,20 @@ pub fn check(w: &mut World, r: usize) -> Result<(), Violation> {
     let id = rep.cfg.id;
     let txn = rep.doc.transact();
     let live: HashMap<String, Handle> = live_types(&rep.roots, &txn).into_iter().map(|(h, _)| (format!("{:?}", h.id()), h)).collect();
-    let integ = integrated_units(&yrs::verif::store_blocks(&txn));
+    let mut integ = integrated_units(&yrs::verif::store_blocks(&txn));
+    // a boundary element / linked entry that this replica holds only as a GC range (relayed in collected form by a
+    // replica where the container is already deleted, and received before that deletion) is anonymous here: it has no
+    // place in any sequence or key chain, so the replica does not "hold the element" the quotation or link names
+    let mut placeholders = 0u64;
+    for b in yrs::verif::store_blocks(&txn).iter().filter(|b| b.kind == 1) {
+        for k in b.id.clock..b.id.clock + b.len {
+            if integ.remove(&(b.id.client.get(), k)) {
+                placeholders += 1;
+            }
+        }
+    }
     drop(txn);
+    w.cnt.add("c20_units_held_only_as_gc_range", placeholders);
     let mut bad: Option<(String, String)> = None;
     let mut checks = 0u64;
     let mut updates: Vec<(usize, Vec<String>)> = vec![];
